@@ -17,6 +17,8 @@ structure LocusV where
   mapped : List (Int × Int)         -- maximal intervals `[a, b)` of positions in `chr_to_ref`
   phaseable : List Int              -- positions of catalogued variants
   multiSites : List (Int × String)  -- `_multi_sites`: position → multi-nucleotide substitution
+  indelEqs : List ((Int × String) × (Int × String)) := []
+                                    -- `_indel_phase_eqs`: reported indel → the database indel it spells
   wide : Int × Int                  -- `gene.get_wide_region()` start, end
 deriving Repr
 
@@ -80,6 +82,7 @@ structure WalkState where
   evs : List Ev                    -- in order of creation
   dump : List (Int × String)       -- `dump_arr`
   phase : List (Int × String)      -- writes to `phase`, in order
+  indels : List (Int × String) := []   -- reported insertions / deletions, in order
 deriving Repr
 
 def qualAt (r : ReadV) (i : Nat) (prevQ : Rat) : Rat :=
@@ -111,6 +114,7 @@ def walkOp (l : LocusV) (r : ReadV) (s : WalkState) (op size : Nat) : WalkState 
     let o : Obs := (binQuality r.mq, binQuality s.prevQ)
     { s with evs := s.evs ++ (List.range size).map (fun (i : Nat) => ⟨s.start + (i : Int), "-", o⟩),
              dump := s.dump ++ [(s.start, dop)],
+             indels := s.indels ++ [(s.start, dop)],
              phase := if l.phaseable.contains s.start then s.phase ++ [(s.start, dop)] else s.phase,
              start := s.start + size }
   else if op == 1 then
@@ -120,7 +124,9 @@ def walkOp (l : LocusV) (r : ReadV) (s : WalkState) (op size : Nat) : WalkState 
       | none => s.prevQ
     { s with evs := s.evs ++ [⟨s.start, iop, (binQuality r.mq, binQuality q)⟩],
              dump := s.dump ++ [(s.start, iop)],
-             phase := if l.phaseable.contains s.start then s.phase ++ [(s.start, iop)] else s.phase,
+             indels := s.indels ++ [(s.start, iop)],
+             -- catalogued insertions are keyed by the base they follow
+             phase := if l.phaseable.contains (s.start - 1) then s.phase ++ [(s.start - 1, iop)] else s.phase,
              prevQ := q, sStart := s.sStart + size }
   else if op == 4 then { s with sStart := s.sStart + size }
   else if Const.PARSE_MATCH_OPS.contains op then walkMatch l r size s
@@ -159,10 +165,31 @@ def mergeMnp (l : LocusV) (evs : List Ev) (dump : List (Int × String)) : List E
       step.1 ++ [⟨pos, site.2, (ratMean (step.2.map (·.1)), ratMean (step.2.map (·.2)))⟩]
     else evs) evs
 
+/-- is the multi-substitution at `site` merged for a read with this `dump_arr`? -/
+def mnpMerged (dump : List (Int × String)) (site : Int × String) : Bool :=
+  dump.any (fun d => d.1 == site.1) && (mnpParts site.2).all (fun p => dump.contains (site.1 + (p.1 : Int), p.2))
+
+/-- phase writes of the merge: the merged operation at the first position, the reference marker
+at the following ones (in line with what `mergeMnp` does to the observations) -/
+def mergePhase (l : LocusV) (dump : List (Int × String)) : List (Int × String) :=
+  l.multiSites.flatMap fun site =>
+    if mnpMerged dump site then
+      (mnpParts site.2).filterMap fun p =>
+        if l.phaseable.contains (site.1 + (p.1 : Int)) then some (site.1 + (p.1 : Int), if p.1 != 0 then "_" else site.2) else none
+    else []
+
+/-- phase writes for indels reported at another position of their repeat: the database entry
+they spell, at the database position -/
+def eqPhase (l : LocusV) (indels : List (Int × String)) : List (Int × String) :=
+  indels.filterMap fun m =>
+    match l.indelEqs.lookup m with
+    | some cat => if l.phaseable.contains cat.1 then some cat else none
+    | none => none
+
 /-- `_parse_read`: the observations one read adds and its phase writes -/
 def parseRead (l : LocusV) (r : ReadV) : List Ev × List (Int × String) :=
   let w := walk l r
-  (mergeMnp l w.evs w.dump, w.phase)
+  (mergeMnp l w.evs w.dump, w.phase ++ eqPhase l w.indels ++ mergePhase l w.dump)
 
 /-- reference bases consumed by one CIGAR operation, as the walk sees it -/
 def consumes (op size : Nat) : Nat := if op == 2 || Const.PARSE_MATCH_OPS.contains op then size else 0
